@@ -146,7 +146,7 @@ def run_tlc(module, cfg, wd, env_extra=None, workers=1, timeout=900, simulate=No
     if env_extra:
         env.update({k: str(v) for k, v in env_extra.items()})
     cmd = ["timeout", str(timeout), "tlc", "-workers", str(workers), "-metadir", meta, "-cleanup",
-           "-noGenerateSpecTE", "-config", os.path.join(SPEC, cfg)]
+           "-noGenerateSpecTE", "-config", cfg if os.path.isabs(cfg) else os.path.join(SPEC, cfg)]
     if simulate:
         cmd += ["-simulate", "num=%d" % simulate]
     if depth:
@@ -164,6 +164,20 @@ def run_tlc(module, cfg, wd, env_extra=None, workers=1, timeout=900, simulate=No
     res["ok"] = p.returncode == 0 and "Model checking completed. No error has been found." in out
     subprocess.run(["rm", "-rf", meta])
     return res
+
+
+def flow_schedules(na, nb, nd, wd):
+    """all interleavings, enumerated by TLC (spec/FlowSched.tla); returns (list of strings over A,B,D, stats)"""
+    cfg = os.path.join(wd, "FlowSched-%d-%d-%d.cfg" % (na, nb, nd))
+    with open(cfg, "w") as f:
+        f.write("SPECIFICATION Spec\nCONSTANTS NA = %d\n NB = %d\n ND = %d\nINVARIANTS Emit Wellformed\nCHECK_DEADLOCK FALSE\n" % (na, nb, nd))
+    res = run_tlc("FlowSched", cfg, wd, workers=1, timeout=300, deque=False)
+    if not res["ok"]:
+        raise ToolError("FlowSched failed:\n" + res["out"][-2000:])
+    scheds = []
+    for line in tlc_prints(res["out"], "SCHED"):
+        scheds.append("".join(re.findall(r'"([ABD])"', line.split(",", 1)[1])))
+    return scheds, res
 
 
 def tlc_prints(out, tag):
